@@ -158,6 +158,8 @@ def corruptions(g1):
     mut("parameter duplicated with a different type", dup("ParameterSet", 9, lambda c: c.attrs["attrib"].__setitem__("parameterTypeRef", "MODE_T")))
     mut("container duplicated with a change", dup("ContainerSet", 2, lambda c: c.attrs["attrib"].__setitem__("abstract", "true")))
     mut("nested container duplicated with a change", dup("ContainerSet", 1, lambda c: c.attrs["attrib"].__setitem__("abstract", "true")))
+    mut("leaf container duplicated with a change", dup("ContainerSet", 3, lambda c: c.attrs["attrib"].__setitem__("abstract", "true")))
+    mut("last leaf container duplicated with a change", dup("ContainerSet", 4, lambda c: c.attrs["attrib"].__setitem__("shortDescription", "other")))
     mut("container duplicated identically", dup("ContainerSet", 4), "consistent-or-reject")
 
     def delete(setname, name):
@@ -315,7 +317,7 @@ SPEC = PropSpec(
     pid="C17",
     title="A loaded definition is a consistent object graph; broken documents fail at load",
     check=check,
-    floors={"R17.g": 6, "R17.c": 18, "R17.1": 4, "R17.3": 3},
+    floors={"R17.g": 6, "R17.c": 20, "R17.1": 4, "R17.3": 3},
     explanation=("The loader is interpreted on the XML model. R17.g: the checker's document (all classes, nested and "
                  "inherited containers) is loaded in five element orders (users before/after what they reference) and the "
                  "resulting object graph is checked by identity: registries keyed by the object's own name, entry lists and "
